@@ -603,4 +603,123 @@ theorem create_plan_complete {F : Type} [DecidableEq F] (enc : ClaimData → F) 
     apply hpred q ⟨st, hst, ?_⟩
     cases st <;> simp [toV] at hvq ⊢
     all_goals exact hvq
+/-! ### transcript order of the statement-id markers -/
+
+/-- per-statement contributions to the four lists -/
+def cmHead (creds : List (String × CredI)) (st : CStmt) : List String :=
+  match predProofOf creds st with
+  | some p => if markerKind p.kind then [p.id] else []
+  | none => []
+def crHead (creds : List (String × CredI)) (st : CStmt) : List String :=
+  match rangeProofOf creds st with
+  | some p => [p.id]
+  | none => []
+def vmHead (types : String → List ClaimType) (st : CStmt) : List String :=
+  match toV types st with
+  | .pred q => if markerKind q.kind then [q.id] else []
+  | _ => []
+def vrHead (types : String → List ClaimType) (st : CStmt) : List String :=
+  match toV types st with
+  | .pred q => if q.kind == .range then [q.id] else []
+  | _ => []
+
+theorem cm_flat (creds : List (String × CredI)) (l : List CStmt) :
+    ((l.filterMap (predProofOf creds)).filter fun p => markerKind p.kind).map (·.id) = l.flatMap (cmHead creds) := by
+  induction l with
+  | nil => rfl
+  | cons st rest ih =>
+    simp only [List.filterMap_cons, List.flatMap_cons, cmHead]
+    cases predProofOf creds st with
+    | none => simpa using ih
+    | some p =>
+      simp only [List.filter_cons]
+      cases markerKind p.kind <;> simp [ih]
+
+theorem cr_flat (creds : List (String × CredI)) (l : List CStmt) :
+    (l.filterMap (rangeProofOf creds)).map (·.id) = l.flatMap (crHead creds) := by
+  induction l with
+  | nil => rfl
+  | cons st rest ih =>
+    simp only [List.filterMap_cons, List.flatMap_cons, crHead]
+    cases rangeProofOf creds st with
+    | none => simpa using ih
+    | some p => simp [ih]
+
+theorem vm_flat (types : String → List ClaimType) (l : List CStmt) :
+    ((l.filterMap (predOf ∘ toV types)).filter fun q => markerKind q.kind).map (·.id) = l.flatMap (vmHead types) := by
+  induction l with
+  | nil => rfl
+  | cons st rest ih =>
+    simp only [List.filterMap_cons, List.flatMap_cons, vmHead, Function.comp]
+    cases hv : toV types st with
+    | sig s => simp only [predOf]; exact ih
+    | pred q =>
+      simp only [predOf, List.filter_cons]
+      cases markerKind q.kind
+      · simp only [Bool.false_eq_true, if_false, List.nil_append]; exact ih
+      · simp only [if_true, List.map_cons, List.singleton_append]; rw [← ih]
+
+theorem vr_flat (types : String → List ClaimType) (l : List CStmt) :
+    ((l.filterMap (predOf ∘ toV types)).filter fun q => q.kind == .range).map (·.id) = l.flatMap (vrHead types) := by
+  induction l with
+  | nil => rfl
+  | cons st rest ih =>
+    simp only [List.filterMap_cons, List.flatMap_cons, vrHead, Function.comp]
+    cases hv : toV types st with
+    | sig s => simp only [predOf]; exact ih
+    | pred q =>
+      simp only [predOf, List.filter_cons]
+      cases (q.kind == Kind.range)
+      · simp only [Bool.false_eq_true, if_false, List.nil_append]; exact ih
+      · simp only [if_true, List.map_cons, List.singleton_append]; rw [← ih]
+
+theorem flatMap_congr_mem {α β : Type} (f g : α → List β) (l : List α) (h : ∀ a ∈ l, f a = g a) :
+    l.flatMap f = l.flatMap g := by
+  induction l with
+  | nil => rfl
+  | cons a as ih =>
+    simp only [List.flatMap_cons, h a (by simp)]
+    rw [ih fun x hx => h x (List.mem_cons_of_mem _ hx)]
+
+/-- **Transcript order.** For an honest pair, `create` and `verify` append the statement-id markers of the
+commitment / verifiable-encryption / encrypt-and-decrypt statements, and then those of the range statements,
+in the same order. -/
+theorem markers_agree (types : String → List ClaimType) (creds : List (String × CredI)) (stmts : List CStmt)
+    (hon : Honest creds stmts) :
+    createMarkers creds stmts = verifyMarkers (stmts.map (toV types)) := by
+  unfold createMarkers verifyMarkers
+  rw [List.filterMap_map, cm_flat, cr_flat, vm_flat, vr_flat]
+  congr 1
+  · apply flatMap_congr_mem
+    intro st hst
+    cases st with
+    | sig id d lb n => simp [cmHead, vmHead, predProofOf, toV]
+    | equality id refs => simp [cmHead, vmHead, predProofOf, toV, markerKind]
+    | simple k id ref c =>
+      rcases hon.kinds k id ref c hst with rfl | rfl | rfl | rfl | rfl
+      · simp only [cmHead, vmHead, predProofOf, toV]
+        cases hl : creds.lookup ref with
+        | none => simp [markerKind]
+        | some cr => cases cr <;> simp [markerKind]
+      · simp [cmHead, vmHead, predProofOf, toV, markerKind]
+      · simp [cmHead, vmHead, predProofOf, toV, markerKind]
+      · simp [cmHead, vmHead, predProofOf, toV, markerKind]
+      · simp only [cmHead, vmHead, predProofOf, toV]
+        cases hl : creds.lookup id with
+        | none => simp [markerKind]
+        | some cr => cases cr <;> simp [markerKind]
+    | range id ref sid c lo hi => simp [cmHead, vmHead, predProofOf, toV, markerKind]
+  · apply flatMap_congr_mem
+    intro st hst
+    cases st with
+    | sig id d lb n => simp [crHead, vrHead, rangeProofOf, toV]
+    | equality id refs => simp [crHead, vrHead, rangeProofOf, toV]
+    | simple k id ref c =>
+      rcases hon.kinds k id ref c hst with rfl | rfl | rfl | rfl | rfl <;> simp [crHead, vrHead, rangeProofOf, toV]
+    | range id ref sid c lo hi =>
+      obtain ⟨cs, hcs⟩ := hon.rangeCred id ref sid c lo hi hst
+      have hcred := sigClaims_lookup creds sid cs hcs
+      simp [crHead, vrHead, rangeProofOf, toV, hcred]
+
+
 end AC.CreatePlan
